@@ -204,6 +204,17 @@ def _tc_histories(sp, tcm, check_pus_crc, c, app, want, tc):
     _er(devs, "hist.composed_from_tm_header", lambda: tcm.PusTc.from_composite_fields(tm_hdr, tcm.PusTcDataFieldHeader(c["service"], c["subservice"], c["source_id"], c["ack"]), app), accept=(ValueError,))
     tc_hdr = sp.SpacePacketHeader(packet_type=sp.PacketType.TC, apid=c["apid"], seq_count=c["seq"], data_len=5 + len(app) + 2 - 1, sec_header_flag=True)
     eq(devs, "hist.composed_after_refused_composition", bytes(tcm.PusTc.from_composite_fields(tc_hdr, tcm.PusTcDataFieldHeader(c["service"], c["subservice"], c["source_id"], c["ack"]), app).pack()), want)
+    # a (large) caller-owned application data buffer edited in place between two computations of the trailer through the view / calc_crc
+    for size in (max(len(app), 1), 2048, 4099):
+        big = bytearray((i * 7 + size) & 0xFF for i in range(size))
+        ob = build_tc(tcm, c, big)
+        w_big = RP.pus_tc(c["apid"], c["seq"], c["service"], c["subservice"], c["source_id"], c["ack"], bytes(big))
+        eq(devs, f"hist.in_place_edit_between_views.first_view.{size}", bytes(ob.to_space_packet().pack()), w_big)
+        big[size // 2] ^= 0xFF
+        w_big2 = RP.pus_tc(c["apid"], c["seq"], c["service"], c["subservice"], c["source_id"], c["ack"], bytes(big))
+        eq(devs, f"hist.in_place_edit_between_views.second_view.{size}", bytes(ob.to_space_packet().pack()), w_big2)
+        ob.calc_crc()
+        eq(devs, f"hist.in_place_edit_between_views.calc_crc_then_pack_without_recalc.{size}", bytes(ob.pack(recalc_crc=False)), w_big2)
     # printing is pure: str() / repr() of a never-packed telecommand change nothing about what is packed after a later field change
     for printed in (False, True):
         o = build_tc(tcm, c, app)
